@@ -45,6 +45,8 @@ class GenDyn(Gen):
             sp.append(["R"])           # the nested ItemSpaces P[i].Q[k] replicate R, outside P's tree
             if ["B"] not in sp and rng.random() < 0.7:
                 sp.append(["B"])       # ... and R may gain / lose B as a base later
+            if rng.random() < 0.6:
+                sp.append(["T"])       # a top-level parametrised space whose instances T[i] are built from R
         self.deep = rng.random() < 0.35
         if self.deep:
             # two levels of child spaces with the SAME name on two paths: P.C.K and P.E.K
@@ -62,6 +64,8 @@ class GenDyn(Gen):
             self.qname = "p" if rng.random() < 0.5 else "q"
             mir["pf"][("P", "Q")] = self.new_pf([[self.qname, 0, 0]], False,
                                                base=["R"] if self.outer_base else None)
+        if ["T"] in sp:
+            mir["pf"][("T",)] = self.new_pf([["t", 0, 0]], False, base=["R"])
         if ["B"] in sp and rng.random() < 0.7:
             mir["bases"][("P",)] = [["B"]]
         elif ["B"] in sp and rng.random() < 0.6:
@@ -216,6 +220,8 @@ class GenDyn(Gen):
         rng = self.rng
         if not self.cur_pps():
             return None
+        if ("T",) in self.mir["pf"] and ["T"] in self.mir["sp"] and rng.random() < 0.25:
+            return ["T"], [["i", "", [rng.choice(KEYS)]]]
         steps = [["i", "", self.key()]]
         path = ["P"]
         k = rng.random()
@@ -438,7 +444,29 @@ class GenDyn(Gen):
                 and not (t == ["P"] and ["B"] in self.mir["bases"].get(("P", "C"), []))]
         if not cand:
             return None
-        return {"op": "add_bases", "s": self.rng.choice(cand), "bs": [["B"]]}
+        t = self.rng.choice(cand)
+        op = {"op": "add_bases", "s": t, "bs": [["B"]]}
+        if t == ["R"] and (("P", "Q") in self.mir["pf"] and self.cur_pps() or ("T",) in self.mir["pf"]):
+            # scenario: an instance built from R is evaluated, R gains the base, the same
+            # instance is asked again (its own cells and one it must now derive from B)
+            st = [["i", "", self.key()], ["c", "Q", []], ["i", "", self.qkey()]]
+            root = ["P"]
+            if ("T",) in self.mir["pf"] and self.rng.random() < 0.6:
+                root, st = ["T"], [["i", "", [self.rng.choice(KEYS)]]]
+            calls = [{"op": "call", "c": [root, st, c], "args": self.rand_args(c), "sp": "pos"}
+                     for c in ("z", "x") if c in self.sigs]
+            self.queue += [calls[0], op] + [dict(c) for c in calls]
+            # (first an edit of R itself: its lazily refreshed namespace is then out of date
+            #  when the instance is built and when the base is added)
+            free = [n for n in ("x", "y") if n not in self.enames_cells(["R"])
+                    and n not in self.mir["refs"][("R",)]]
+            if free and self.rng.random() < 0.6:
+                c = self.rng.choice(free)
+                return {"op": "new_cells", "s": ["R"], "c": c,
+                        "rec": {"f": self.formula(["R"], c), "cached": True, "an": 0}}
+            return {"op": "set_ref", "s": ["R"], "n": "s", "v": ["int", self.rng.choice(INT_VALUES), [], ""],
+                    "mode": "auto", "via": "attr"}
+        return op
 
     def mk_remove_bases(self):
         cand = [t for t in (["P"], ["R"], ["P", "C"]) if ["B"] in self.mir["bases"].get(tp(t), [])]
